@@ -28,6 +28,11 @@ def spec(tier: str, seed: int, which: str = "C18") -> Spec:
     later = H.STALE_LATER_QUICK if tier == "quick" else H.STALE_LATER
     firsts = ("replace-noop",) if tier == "quick" else ("replace-noop", "replace-property", "duplicate-detached", "transform-inc")
     if which == "C18":
+        # a root detached on its own first, then changes below it and re-attachment by construction
+        KD = 3 if tier == "quick" else 4
+        for op in ("detach_self", "detach"):
+            for f in range(len(H.FORESTS)):
+                fams.append(Family(f"detached-K{KD}-{op}-forest{f}", H.make_harness(KD, which, [op], H.DETACHED_LATER, forest=f), per_path_timeout=3.0, variables="selectors: receiver per step; operations after the first from a reduced alphabet"))
         for op in firsts:
             for f in range(len(H.FORESTS)):
                 for r in range(5):
